@@ -134,7 +134,14 @@ fn main() {
                 if r.chance(1, 3) { pd2 = reverse_all(&pd2); }
                 if r.bool() { pd2 = relabel(&pd2, &mut r); }
                 if r.bool() { pd2 = shuffle_crossings(&pd2, &mut r); }
-                let (l1, l2) = (Link::from_pd_code(pd1.clone()), Link::from_pd_code(pd2));
+                let (l1, mut l2) = (Link::from_pd_code(pd1.clone()), Link::from_pd_code(pd2));
+                if k % 4 == 1 {
+                    // the moved braid closed by the LIBRARY (Braid::closure): the observation point of the property
+                    // for Markov moves; the first diagram stays the generator-side closure of the original word
+                    if let Some(lc) = guarded(|| yui_link::Braid::new(s2, w2.iter().map(|&x| yui_link::Generator::from(x)).collect()).closure()) {
+                        l2 = lc;
+                    }
+                }
                 let oracle = l1.crossing_num() <= omax && l2.crossing_num() <= omax;
                 if let Some(c) = case_line("SAME", &l1, &l2, oracle) { cases.push(c); }
                 if k % 2 == 0 {
